@@ -4,10 +4,10 @@ import json
 import random
 import time
 
-from dv import core, trees
+from dv import core, trees, c01_hist
 from dv.core import cz, cbool, clist, copt, cpair
 
-HEADER = ("From DV Require Import Model.PyPrims Model.Tree Model.C01Model.\n"
+HEADER = ("From DV Require Import Model.PyPrims Model.Tree Model.C01Model Model.C01GenPrims Model.C01ObjModel.\n"
           "From Coq Require Import ZArith. Open Scope Z_scope.")
 
 ROOTINGS = (True, False, None)
@@ -56,7 +56,13 @@ def gen_enc_case(rng, maxleaves=40, clean=False):
     probes = [rng.getrandbits(n + 6) for _ in range(rng.randint(0, 3))]
     case = {"kind": "enc", "tree": t, "rooted": rng.choice(ROOTINGS), "ns": gen_ns_params(rng, n),
             "twice": rng.random() < 0.3, "probes": probes, "shape": shape, "dirty": dirty, "unif": unif > 0,
-            "su": rng.random() < 0.75, "cb": rng.random() < 0.75, "hist": [], "via": None}
+            "su": rng.random() < 0.75, "cb": rng.random() < 0.75, "hist": [], "via": None,
+            "ss": False, "mut": False, "entry": "encode_bipartitions"}
+    if rng.random() < 0.25:
+        # the documented keywords suppress_storage / is_bipartitions_mutable, the entry point update_bipartitions
+        case["ss"] = rng.random() < 0.6
+        case["mut"] = rng.random() < 0.4
+        case["entry"] = rng.choice(["encode_bipartitions", "update_bipartitions"])
     k = rng.random()
     if k < 0.15:
         # namespace history before the tree is encoded: bits get cached (taxon_bitmask / an encoded tree),
@@ -73,6 +79,8 @@ def gen_enc_case(rng, maxleaves=40, clean=False):
         case["via"] = [rng.choice(VIA_OPS), rng.randrange(10 ** 6)]
         case["twice"] = False
         case["su"] = case["cb"] = True
+        case["ss"] = case["mut"] = False
+        case["entry"] = "encode_bipartitions"
     return case
 
 
@@ -183,18 +191,27 @@ def observe_enc(case):
     ns, objs, tree, tindex, acc = setup_tree(case)
     kw = {"suppress_unifurcations": case.get("su", True),
           "collapse_unrooted_basal_bifurcation": case.get("cb", True)}
+    if case.get("ss"):
+        kw["suppress_storage"] = True
+    if case.get("mut"):
+        kw["is_bipartitions_mutable"] = True
+    entry = case.get("entry", "encode_bipartitions")
     via_done = None
+    ret = None
     try:
         if case.get("via"):
             via_done = apply_via(tree, case["via"], tindex)
             if via_done == "n/a":
                 tree.encode_bipartitions()
         else:
-            tree.encode_bipartitions(**kw)
+            ret = getattr(tree, entry)(**kw)
             if case["twice"]:
-                tree.encode_bipartitions(**kw)
+                ret = getattr(tree, entry)(**kw)
     except Exception as e:
         return {"error": core.exc_enum(e), "acc": acc, "via_done": via_done}
+    stored = tree.bipartition_encoding
+    storage = ["none" if stored is None else "list",
+               "none" if ret is None else ("stored" if ret is stored else "other")]
     spec, problems = trees.dump_dendropy(tree, tindex)
 
     def masks(b):
@@ -202,7 +219,10 @@ def observe_enc(case):
             return [-1, -1]
         return [b.leafset_bitmask if b.leafset_bitmask is not None else -1,
                 b.split_bitmask if b.split_bitmask is not None else -1]
-    edges = [[e.head_node._dv_id] + masks(e.bipartition) for e in tree.postorder_edge_iter()]
+    # read from the edges BEFORE anything that may encode again (split_bitmask_edge_map does so when no list is stored)
+    edges = [[e.head_node._dv_id] + masks(e._bipartition) for e in tree.postorder_edge_iter()]
+    edge_flags = [[b.is_rooted, b.is_mutable, b.tree_leafset_bitmask]
+                  for b in (e._bipartition for e in tree.postorder_edge_iter()) if b is not None]
     enc = [masks(b) for b in (tree.bipartition_encoding or [])]
     # decoding the stored leafsets through the namespace
     decoded = []
@@ -211,20 +231,20 @@ def observe_enc(case):
             decoded.append(sorted(tindex.get(id(x), -1) for x in e.bipartition.leafset_taxa(ns)))
         except Exception as ex:
             decoded.append("raised " + core.exc_enum(ex))
-    flags = sorted(set((b.is_rooted, b.is_mutable, b.tree_leafset_bitmask) for b in tree.bipartition_encoding),
-                   key=repr)
+    flags = sorted(set(tuple(f) for f in edge_flags), key=repr)
     tree_mask = tree.seed_node.edge.bipartition.leafset_bitmask
     probes = []
-    if tree_mask:
+    if tree_mask and not case.get("ss"):         # without a stored list the probe would encode again
         for a in case["probes"]:
             bip = Bipartition(leafset_bitmask=a, tree_leafset_bitmask=tree_mask, is_rooted=tree.is_rooted)
             probes.append([a, bool(tree.is_compatible_with_bipartition(bip, is_bipartitions_updated=True)),
                            bip.split_bitmask])
     try:
-        keys = sorted(tree.split_bitmask_edge_map.keys())
+        # mutable bipartitions are unhashable by design; without a stored list the map encodes again
+        keys = None if (case.get("ss") or case.get("mut")) else sorted(tree.split_bitmask_edge_map.keys())
     except Exception as e:   # seen: tree without any taxon (tree mask 0) keeps mutable bipartitions -> unhashable
         keys = "raised " + core.exc_enum(e)
-    return {"via_done": via_done, "decoded": decoded,
+    return {"via_done": via_done, "decoded": decoded, "storage": storage,
             "tree": spec, "problems": problems, "edges": edges, "enc": enc, "rooted": tree.is_rooted,
             "acc": acc, "probes": probes, "map_keys": keys, "flags": [list(f) for f in flags]}
 
@@ -296,6 +316,8 @@ def observe_from(case):
 
 
 def observe(case):
+    if case["kind"] == "hist":
+        return c01_hist.observe_hist(case, setup_tree, dump_mtree)
     return {"enc": observe_enc, "bits": observe_bits, "bip": observe_bip, "from": observe_from}[case["kind"]](case)
 
 
@@ -364,6 +386,19 @@ def oracle_enc(case, obs):
     via = case.get("via") and obs.get("via_done") == "done"
     tag = ("after %s(update_bipartitions=True): " % case["via"][0]) if via else \
           (("after namespace history %s: " % case["hist"]) if case.get("hist") else "")
+    kwk = ""
+    if case.get("ss"):
+        tag += "%s(suppress_storage=True), bipartitions read from the edges: " % case.get("entry")
+        kwk = ":suppress_storage"
+    elif case.get("mut") or case.get("entry", "encode_bipartitions") != "encode_bipartitions":
+        tag += "%s(is_bipartitions_mutable=%s): " % (case.get("entry"), case.get("mut"))
+        kwk = ":" + case.get("entry") + ("-mutable" if case.get("mut") else "")
+    if not case.get("via") and "storage" in obs:
+        want_storage = ["none", "none"] if case.get("ss") else \
+            ["list", "none" if case.get("entry") == "update_bipartitions" else "stored"]
+        if obs["storage"] != want_storage:
+            return (tag + "bipartition_encoding / return value are %s, documented %s" % (obs["storage"], want_storage),
+                    "storage-keyword")
     if not via and S != spec_leaf_bits(case["tree"], acc):
         return ("leaf taxa changed by encode_bipartitions", "leaf-taxa-changed")
     rooted_after = obs["rooted"]
@@ -372,14 +407,14 @@ def oracle_enc(case, obs):
         want = spec_leaf_bits(by_id[nid], acc)
         if ls < 0 or bits_of(ls) != want:
             return (tag + "leafset bitmask %s of edge %d is not the taxa below it %s (bits by accession_index now)"
-                    % (bin(ls), nid, sorted(want)), "leafset-not-exact")
+                    % (bin(ls), nid, sorted(want)), "leafset-not-exact" + kwk)
         if rooted_after:
             wsp = want
         else:
             wsp = (S - want) if (low is not None and low in want) else want
         if sp < 0 or bits_of(sp) != wsp:
             return (tag + "split bitmask %s of edge %d (leafset %s, tree leaf bits %s, rooted=%s) is not %s"
-                    % (bin(sp), nid, sorted(want), sorted(S), rooted_after, sorted(wsp)), "split-not-normalised")
+                    % (bin(sp), nid, sorted(want), sorted(S), rooted_after, sorted(wsp)), "split-not-normalised" + kwk)
     for (nid, _ls, _sp), dec in zip(obs["edges"], obs.get("decoded", [])):
         below = sorted(set(n["taxon"] for n in trees.leaves(by_id[nid]) if n["taxon"] is not None))
         if dec != below:
@@ -389,9 +424,11 @@ def oracle_enc(case, obs):
         # an operation may reorder children after it has encoded (to_outgroup_position): same bipartitions
         if sorted(obs["enc"]) != sorted([ls, sp] for _n, ls, sp in obs["edges"]):
             return (tag + "bipartition_encoding does not hold the bipartitions of the tree's edges", "encoding-list")
-    elif obs["enc"] != [[ls, sp] for _n, ls, sp in obs["edges"]]:
+    elif not case.get("ss") and obs["enc"] != [[ls, sp] for _n, ls, sp in obs["edges"]]:
         return ("bipartition_encoding is not the list of the tree's edge bipartitions in post-order", "encoding-list")
-    if isinstance(obs["map_keys"], str):
+    if obs["map_keys"] is None:
+        pass
+    elif isinstance(obs["map_keys"], str):
         if S:
             return ("split_bitmask_edge_map %s on a tree with taxa" % obs["map_keys"], "edge-map-raises")
         # a tree without any taxon: compile_split_bitmask returns early and leaves every bipartition
@@ -548,6 +585,8 @@ def oracle_from(case, obs):
 
 
 def oracle(case, obs):
+    if case["kind"] == "hist":
+        return c01_hist.oracle_hist(case, obs, spec_leaf_bits, bits_of, oracle_from)
     return {"enc": oracle_enc, "bits": oracle_bits, "bip": oracle_bip, "from": oracle_from}[case["kind"]](case, obs)
 
 
@@ -564,6 +603,12 @@ def c_mtree(m):
 
 
 def to_coq(case, obs):
+    if case["kind"] == "hist":
+        return "(XHist %s)" % c01_hist.to_coq_hist(case, obs)
+    return "(XBase %s)" % to_coq_base(case, obs)
+
+
+def to_coq_base(case, obs):
     k = case["kind"]
     if k == "enc":
         acc = clist([cpair(cz(a), cz(b)) for a, b in obs["acc"]])
@@ -574,7 +619,9 @@ def to_coq(case, obs):
             exp = "(mkEnc %s %s %s %s)" % (
                 trees.c_tree(obs["tree"]), c_ob(obs["rooted"]),
                 clist([cpair(cz(n), cpair(cz(l), cz(s))) for n, l, s in obs["edges"]]),
-                clist([cpair(cz(l), cz(s)) for l, s in obs["enc"]]))
+                # suppress_storage: no list is stored (checked by the oracle and, object level, by the history cases)
+                clist([cpair(cz(l), cz(s)) for l, s in (obs["enc"] if not case.get("ss") else
+                                                        [[l, s] for _n, l, s in obs["edges"]])]))
             probes = clist([cpair(cz(a), cbool(g)) for a, g, _s in obs["probes"]])
         if case.get("via") and obs.get("via_done") == "done" and "error" not in obs:
             exp = "(mkEnc %s %s %s %s)" % (
@@ -607,12 +654,19 @@ def nontrivial(case, obs):
     k = case["kind"]
     if k == "enc":
         return "edges" in obs and len(obs["edges"]) >= 4
+    if k == "hist":
+        return sum(1 for o in obs["steps"] if "saved" in o and len(o["saved"]) >= 2) >= 1 and \
+            any(len(o.get("edges", [])) >= 4 for o in obs["steps"])
     if k == "from":
         return len(obs.get("splits", [])) >= 3
     return True
 
 
 def sample_fn(case, obs):
+    if case["kind"] == "hist":
+        return {"kind": "hist", "newick": trees.newick(case["tree"], with_len=False), "rooted": case["rooted"],
+                "ns": case["ns"], "steps": case["steps"],
+                "tokens_last_step": [r and r[0] for _n, r in (obs["steps"][-1].get("edges") or [])][:8]}
     if case["kind"] in ("enc", "from"):
         return {"kind": case["kind"], "newick": trees.newick(case["tree"], with_len=False), "rooted": case["rooted"],
                 "ns": case["ns"], "observed_edges": (obs.get("edges") or obs.get("splits") or [])[:6]}
@@ -662,6 +716,8 @@ def gen_forced(rng, what):
             return c
         if what == "hist" and c["hist"] and any(op[0] == "readd" for op in c["hist"]):
             return c
+        if what == "kw" and (c.get("ss") or c.get("mut") or c.get("entry") != "encode_bipartitions"):
+            return c
 
 
 def gen_cases(ctx, rng, n_enc, n_from, n_bits, n_bip):
@@ -674,6 +730,8 @@ def gen_cases(ctx, rng, n_enc, n_from, n_bits, n_bip):
         cases.append(gen_forced(rng, "hist"))
     for _ in range(n_from):
         cases.append(gen_from_case(rng))
+    for i in range(max(2, n_enc // 3)):
+        cases.append(c01_hist.gen_hist_case(rng, gen_ns_params, force_ss=(i % 5 == 0)))
     for _ in range(n_bits):
         cases.append(gen_bits_case(rng))
     for _ in range(n_bip):
@@ -681,15 +739,22 @@ def gen_cases(ctx, rng, n_enc, n_from, n_bits, n_bip):
     return cases
 
 
+def gen_hist_case(rng):
+    return c01_hist.gen_hist_case(rng, gen_ns_params, force_ss=rng.random() < 0.2)
+
+
 def search(ctx, budget_s):
     t0 = time.time()
     rng = random.Random(ctx.seed + 4242)
     n = 0
-    for case in itertools.chain(exhaustive_cases(5), iter(lambda: None, 1)):
+    hrng = random.Random(ctx.seed + 77)
+    first = [gen_hist_case(hrng) for _ in range(60)] + [gen_forced(hrng, "kw") for _ in range(60)]
+    for case in itertools.chain(first, exhaustive_cases(5), iter(lambda: None, 1)):
         if time.time() - t0 > budget_s or n > 60000:
             break
         if case is None:
-            case = rng.choice([gen_enc_case, gen_from_case, gen_bits_case, gen_bip_case])(rng)
+            case = rng.choice([gen_enc_case, gen_from_case, gen_bits_case, gen_bip_case, gen_hist_case,
+                               gen_hist_case])(rng)
         try:
             obs = observe(case)
         except Exception as e:
@@ -707,16 +772,19 @@ def search(ctx, budget_s):
 def gen_overwritten():
     """True when coq/Gen/Bipartition.v is not what the translator derives from this run's source"""
     import os
-    from dv import gen_bipartition
-    try:
-        want = gen_bipartition.generate(core.REPO)
-    except Exception:
-        return False          # fail-closed stub: handled by proof_stage
-    try:
-        with open(os.path.join(core.COQ, "Gen", "Bipartition.v")) as f:
-            return f.read() != want
-    except OSError:
-        return True
+    from dv import gen_bipartition, gen_bipartition_obj
+    for mod, name in ((gen_bipartition, "Bipartition.v"), (gen_bipartition_obj, "BipartitionObj.v")):
+        try:
+            want = mod.generate(core.REPO)
+        except Exception:
+            continue              # fail-closed stub: handled by proof_stage
+        try:
+            with open(os.path.join(core.COQ, "Gen", name)) as f:
+                if f.read() != want:
+                    return True
+        except OSError:
+            return True
+    return False
 
 
 def run(tier, seed, replay=None):
@@ -726,6 +794,7 @@ def run(tier, seed, replay=None):
         "from_split_bitmasks / Bipartition construction and predicates on rose trees; tied by this correspondence run",
         "the bit-level functions are the translated ones (coq/Gen/BitFns.v, regenerated from the source each run)",
         "encode_bipartitions (loop body, flags, second pass), compile_split_bitmask & co., the Bipartition predicates, taxon_bitmask / all_taxa_bitmask are ALSO translated from the AST on every run (coq/Gen/Bipartition.v) and proved equal to the model (Props/C01Gen.v); trusted there: the primitive semantics of coq/Model/C01GenPrims.v",
+        "object level (coq/Model/C01ObjModel.v): Bipartition objects are store cells; edges, Tree.bipartition_encoding and the lists returned by earlier encodings refer to cells; encode_bipartitions / update_bipartitions (four keywords) are transcribed as to which object is created, bound, written in place and returned, and this reading is ALSO generated from the source's statements (py/dv/gen_bipartition_obj.py -> coq/Gen/BipartitionObj.v, proved equal to the model in Props/C01Gen.v; trusted there: coq/Model/C01ObjPrims.v - heap primitives, the property getter Edge.bipartition, map() as a lazy iterator consumed by list()/for); every other tree operation is modelled as a change of structure and rooting flag that leaves Edge._bipartition bindings and Bipartition attributes alone (the only writers in the library are encode_bipartitions and from_split_bitmasks on its own new tree; the history cases re-observe every object after every step)",
         "post-order stack traversal of encode_bipartitions is modelled by structural recursion (traversal order is C15's subject)",
         "every leaf taxon is a member of the tree's namespace (taxon_bitmask of a non-member raises KeyError)",
         "from_split_bitmasks: the leaf-to-root climb is modelled as the root-to-leaf descent to the deepest node covering the split (same node on masks that grow towards the root)",
@@ -738,7 +807,7 @@ def run(tier, seed, replay=None):
         obs = observe(case)
         print("observed:", json.dumps(obs, default=str)[:3000])
         print("oracle:", oracle(case, obs))
-        print("model:", core.show_cases("C01", HEADER, "case_show", [to_coq(case, obs)]))
+        print("model:", core.show_cases("C01", HEADER, "xcase_show", [to_coq(case, obs)]))
         return 0
     ok = core.proof_stage(ctx, ["Props/C01.vo", "Props/C01Gen.vo"], gen_needed=("BitFns", "Bipartition"))
     if gen_overwritten():
@@ -775,7 +844,14 @@ def run(tier, seed, replay=None):
         cases.extend(exhaustive_cases(6))
     for c in cases:
         ctx.count("kind:" + c["kind"])
-        if c["kind"] in ("enc", "from"):
+        if c["kind"] == "hist":
+            for st in c["steps"]:
+                ctx.count("hist:%s" % (st[5] if st[0] == "enc" else st[0] + "-" + st[1]))
+                if st[0] == "enc":
+                    ctx.count("hist:suppress_storage=%s" % st[3])
+                    ctx.count("hist:is_bipartitions_mutable=%s" % st[4])
+            ctx.count("hist:encodings=%d" % sum(1 for st in c["steps"] if st[0] != "edit"))
+        if c["kind"] in ("enc", "from", "hist"):
             ctx.count("shape:" + c["shape"])
             ctx.count("rooted:%s" % c["rooted"])
             ctx.count("leaves:%d-%d" % ((len(trees.leaves(c["tree"])) - 1) // 10 * 10 + 1,
@@ -788,6 +864,9 @@ def run(tier, seed, replay=None):
             ctx.count("enc:unifurcations" if c["unif"] else "enc:no-unifurcations")
             ctx.count("enc:twice" if c["twice"] else "enc:once")
             ctx.count("enc:suppress_unifurcations=%s" % c.get("su", True))
+            ctx.count("enc:suppress_storage=%s" % c.get("ss", False))
+            ctx.count("enc:is_bipartitions_mutable=%s" % c.get("mut", False))
+            ctx.count("enc:entry=%s" % c.get("entry", "encode_bipartitions"))
             if c.get("hist"):
                 ctx.count("enc:namespace-history")
             if c.get("via"):
@@ -795,14 +874,14 @@ def run(tier, seed, replay=None):
             ctx.count("enc:collapse_unrooted_basal_bifurcation=%s" % c.get("cb", True))
         if c["kind"] == "from":
             ctx.count("from:" + c["mode"])
-    core.corr_stage(ctx, cases, observe, to_coq, HEADER, "case_ok", oracle=oracle, show_fn="case_show",
+    core.corr_stage(ctx, cases, observe, to_coq, HEADER, "xcase_ok", oracle=oracle, show_fn="xcase_show",
                     nontrivial=nontrivial, search=search, shard=250, sample_fn=sample_fn)
     return ctx.finish(
         level="proof",
         rule="random rose trees with 1-40 leaves (binary / polytomy / mixed / caterpillar / star / single node, "
              "optional unifurcations, missing lengths, occasionally a taxon-less or duplicate-taxon leaf), is_rooted "
              "in {True, False, None}, namespaces with vacated accession indices / extra members / sorted; "
-             "namespace histories before encoding (bits cached by taxon_bitmask / an encoded tree, members removed and the same Taxon object re-added); encodings left behind by reroot_at_node / reroot_at_edge / reseed_at / to_outgroup_position / prune_taxa / retain_taxa / prune_subtree called with update_bipartitions=True (every stored mask compared with the naive recomputation for the tree's current structure, rooting flag and namespace; leafset_taxa() decoding); encode_bipartitions once or twice with suppress_unifurcations / collapse_unrooted_basal_bifurcation each False in ~25% of the cases, tree-level compatibility probes; rebuild from shuffled encodings, "
+             "namespace histories before encoding (bits cached by taxon_bitmask / an encoded tree, members removed and the same Taxon object re-added); encodings left behind by reroot_at_node / reroot_at_edge / reseed_at / to_outgroup_position / prune_taxa / retain_taxa / prune_subtree called with update_bipartitions=True (every stored mask compared with the naive recomputation for the tree's current structure, rooting flag and namespace; leafset_taxa() decoding); encode_bipartitions once or twice with suppress_unifurcations / collapse_unrooted_basal_bifurcation each False in ~25% of the cases, in ~25% of the cases through update_bipartitions and/or with suppress_storage=True (bipartitions then read from the edges) / is_bipartitions_mutable=True, tree-level compatibility probes; object-level HISTORIES on one tree (3-12 leaves): encode (all four keywords, either entry point), keep what was returned (the list object; with suppress_storage the objects on the edges), edit the tree (SPR, reroot_at_node / reseed_at / reroot_at_edge / to_outgroup_position with update_bipartitions=False, Edge.collapse, prune a leaf, child shuffle, a new node in an edge) or call reroot_at_node / reroot_at_edge / reseed_at / prune_taxa / retain_taxa / prune_subtree with update_bipartitions=True, encode again, ...; after EVERY step the identity (token by first sight, objects kept alive) and all six attributes of every Bipartition reachable from the edges, from bipartition_encoding and from every saved list are observed and compared with the model up to renaming of identities; oracle: masks exact after each encoding, a saved encoding never changes (objects and masks), an encoding consists of new objects, each saved encoding still rebuilds (shuffled, from_bipartition_encoding) the topology it was taken from; rebuild from shuffled encodings, "
              "encodings with noise and random mask lists; static bit predicates on random mask triples (incl. "
              "negative masks); Bipartition objects built from random masks; thorough adds every shape <= 6 leaves "
              "x 3 rootings x 3 accession maps. A tree case is non-trivial with >= 4 retained edges (enc) or >= 3 "
